@@ -188,6 +188,8 @@ func (rt *runtime) cmplEvaluateNodeBracketExpression(node *nodeBracketExpression
 func (rt *runtime) cmplEvaluateNodeCallExpression(node *nodeCallExpression, withArgumentList []interface{}) Value {
 	this := Value{}
 	callee := rt.cmplEvaluateNodeExpression(node.callee)
+	// 11.2.3 step 2: the callee's value is read before the arguments are evaluated.
+	vl := callee.resolve()
 
 	argumentList := []Value{}
 	if withArgumentList != nil {
@@ -231,7 +233,6 @@ func (rt *runtime) cmplEvaluateNodeCallExpression(node *nodeCallExpression, with
 		file:   rt.scope.frame.file,
 	}
 
-	vl := callee.resolve()
 	if !vl.IsFunction() {
 		if name == "" {
 			// FIXME Maybe typeof?
@@ -267,6 +268,8 @@ func (rt *runtime) cmplEvaluateNodeDotExpression(node *nodeDotExpression) Value 
 
 func (rt *runtime) cmplEvaluateNodeNewExpression(node *nodeNewExpression) Value {
 	callee := rt.cmplEvaluateNodeExpression(node.callee)
+	// 11.2.2 step 2: the constructor's value is read before the arguments are evaluated.
+	vl := callee.resolve()
 
 	argumentList := []Value{}
 	for _, argumentNode := range node.argumentList {
@@ -295,7 +298,6 @@ func (rt *runtime) cmplEvaluateNodeNewExpression(node *nodeNewExpression) Value 
 		atv = at(callee.idx)
 	}
 
-	vl := callee.resolve()
 	if !vl.IsFunction() {
 		if name == "" {
 			// FIXME Maybe typeof?
